@@ -62,6 +62,8 @@ def gen_plan(prop, run_seed, tier):
     conds = [(f"d{i}", float(k + 1)) for i in range(n_names) for k in range(n_doses)]
     samples = [f"s{i}" for i in range(n_samples)]
     n_rows = w.choice([0, 1, 3, 6, 10, 20, 40, 60])
+    if w.random() < 0.03:  # more rows than any plausible block size
+        n_rows = w.choice([130, 260])
     rows = []
     for _ in range(n_rows):
         smp = w.choice(samples)
